@@ -19,6 +19,11 @@ func c12Items(r *fw.Rand, n int, tag string, span int) []*astisub.Item {
 	for k := range items {
 		s := int64(r.Intn(span))
 		items[k] = decorate(textItem(time.Duration(s), time.Duration(s+int64(r.Intn(5))), fmt.Sprintf("%s%d", tag, k)), k+r.Intn(3))
+		if items[k].InlineStyle == nil && r.Bool() {
+			// an Aegisub layer, higher layers listed first: ordering looks at the start and at nothing else
+			layer := n - k
+			items[k].InlineStyle = &astisub.StyleAttributes{SSALayer: &layer}
+		}
 	}
 	return items
 }
@@ -305,10 +310,24 @@ func c12CLI(c *fw.Ctx) fw.Outcome {
 		return cs
 	}
 	a, b := mk("A"), mk("B")
-	ina, inb := filepath.Join(c.TmpDir(), "a.srt"), filepath.Join(c.TmpDir(), "b.srt")
-	out := filepath.Join(c.TmpDir(), "out.srt")
-	os.WriteFile(ina, []byte(simpleSRT(a)), 0o644)
-	os.WriteFile(inb, []byte(simpleSRT(b)), 0o644)
+	// the two files and the result in SubRip, or in any mix of formats (all times are multiples of 500 ms)
+	fa, fo, ea, eo, _ := cliPickIO(c.R)
+	fb, _, eb, _, _ := cliPickIO(c.R)
+	if c.R.P(1, 5) {
+		// two SubStation scripts merged into a third
+		fa, fb, fo = cliFormats[4], cliFormats[4+c.R.Intn(2)], cliFormats[4+c.R.Intn(2)]
+		ea, eb, eo = fa.ext, fb.ext, fo.ext
+	}
+	ina, inb := filepath.Join(c.TmpDir(), "a."+ea), filepath.Join(c.TmpDir(), "b."+eb)
+	out := filepath.Join(c.TmpDir(), "out."+eo)
+	da, db := fa.doc(a), fb.doc(b)
+	ssaBoth := fa.unit == 1e7 && fb.unit == 1e7 && fo.unit == 1e7
+	if ssaBoth {
+		// both scripts define the style Default, each its own way: the first file's definition is the one kept
+		da, db = simpleSSAFont(a, fa.ext == "ass", "FontOfA"), simpleSSAFont(b, fb.ext == "ass", "FontOfB")
+	}
+	os.WriteFile(ina, []byte(da), 0o644)
+	os.WriteFile(inb, []byte(db), 0o644)
 	out = outPath(c.R, ina, out)
 	key := hashCues(append(append([]tcue(nil), a...), b...), 0xc12)
 	msg, err := cli("merge", "-i", ina, "-i", inb, "-o", out)
@@ -322,7 +341,14 @@ func c12CLI(c *fw.Ctx) fw.Outcome {
 	exp := append(append([]tcue(nil), a...), b...)
 	sort.SliceStable(exp, func(i, j int) bool { return exp[i].S < exp[j].S })
 	if x, y := fmtCues(exp), fmtCues(cuesOf(got.Items)); x != y {
-		return fw.Bad(key, nil, "CLI merge of %s and %s: got %s, ordered union %s", fmtCues(a), fmtCues(b), y, x)
+		return fw.Bad(key, nil, "CLI merge of %s (%s) and %s (%s) into %s: got %s, ordered union %s", fmtCues(a), ea, fmtCues(b), eb, filepath.Base(out), y, x)
+	}
+	if ssaBoth {
+		st := got.Styles["Default"]
+		if st == nil || st.InlineStyle == nil || st.InlineStyle.SSAFontName != "FontOfA" {
+			return fw.Bad(key, nil, "CLI merge of two scripts that both define the style Default (%s, %s into %s): the merged script does not hold the first file's definition (font FontOfA): %+v", ea, eb, filepath.Base(out), st)
+		}
+		c.Count("cli_merge_style_clashes", 1)
 	}
 	c.Count("cli_merge_runs", 1)
 	return fw.OK(key, map[string]interface{}{"cli": "merge", "A": fmtCues(a), "B": fmtCues(b)})
